@@ -110,6 +110,19 @@ Section Capped.
 End Capped.
 Arguments sync_loop_capped {A B U PS}. Arguments synchronize_capped {A B U PS}.
 
+(* ---------- the same registration outcome, the plugin ends' own states aside ---------- *)
+Definition same_outcome {A B U PS1 PS2} (o1 : outcome A B U PS1) (o2 : outcome A B U PS2) : Prop :=
+  match o1, o2 with
+  | Delivered s1 u1 _, Delivered s2 u2 _ => s1 = s2 /\ u1 = u2
+  | Failed w1 s1 _, Failed w2 s2 _ => w1 = w2 /\ s1 = s2
+  | Panic s1, Panic s2 => s1 = s2
+  | OutOfFuel s1, OutOfFuel s2 => s1 = s2
+  | _, _ => False
+  end.
+(* the plugin end's state an outcome ends with *)
+Definition final_state {A B U PS} (o : outcome A B U PS) : option PS :=
+  match o with Delivered _ _ st | Failed _ _ st => Some st | _ => None end.
+
 (* ---------- one request per registration ---------- *)
 (* nothing follows a message not flagged More: the request is complete with it, whatever the plugin
    answers to it *)
